@@ -141,6 +141,14 @@ class DeviceParameters(object):
         else:
             raise ValueError("The backend is neither a BackendV2 nor a FakeBackendV2 object")
 
+        # Supported interaction gates of the backend, in basis order. A backend without any of them is rejected before
+        # its properties are read.
+        backend_base = config.basis_gates
+        int_gates = [x for x in backend_base if x == 'ecr' or x == 'cx']
+
+        if len(int_gates) == 0:
+                raise ValueError("The interaction gate of the backend is not implemented. Please choose another backend") 
+
         self.T1 = [prop.t1(j) for j in self.qubits_layout]
         self.T2 = [prop.t2(j) for j in self.qubits_layout]
         self.p = [prop.gate_error('x', [j]) for j in self.qubits_layout]
@@ -160,19 +168,7 @@ class DeviceParameters(object):
         t_int = np.zeros((max_qubit, max_qubit))
         p_int = np.zeros((max_qubit, max_qubit))
 
-        backend_base = config.basis_gates
-        int_info = None
-        
-        for x in backend_base:
-            if x == 'ecr':
-                int_info = prop.gate_property('ecr')
-                break
-            elif x == 'cx':
-                int_info = prop.gate_property('cx')
-                break
-            
-        if int_info is None:
-                raise ValueError("The interaction gate of the backend is not implemented. Please choose another backend") 
+        int_info = prop.gate_property(int_gates[0])
 
         if max_qubit > 1:
             for x in int_info:
